@@ -36,6 +36,8 @@ func checkC01(c *Ctx) (string, error) {
 	checkClosureRepr(c, sp, ap)
 	checkOptLevels(c, op, bp)
 	checkLastMatchScans(c, bp)
+	checkLoadForwarding(c, cp)
+	checkStraightLineEmitters(c, sp)
 	return "C01 (coverage only): exhaustiveness of the lowering over go/ssa's instruction and value types (enumerated from the go/ssa version in go.mod), over the operator x operand-kind domain go/types admits, over go/ssa's builtin set, and over the optimisation levels; generics instantiated before lowering; one closure representation shared by writer and predicates; last-match discipline in the operand-order fix-up pass. The behavioural statement - output equality with the Go toolchain for all programs - is NOT decided by any of this: that an arm exists says nothing about whether it emits correct IR, places phis correctly or orders side effects correctly.", nil
 }
 
